@@ -271,7 +271,7 @@ theorem placeFileG_alloc (pol : UInt8) (buf : Bytes) (fileOffset attrs : Nat) (f
     Post' (placeFileG pol buf fileOffset attrs fileBuf) m (fun r m' =>
       PlaceQ buf fileBuf (if alignmentOf attrs = 1 then 0 else alignmentOf attrs) m r m') := by
   unfold placeFileG
-  refine post'_ite (fun _ => post'_panic) (fun _ => ?_)
+  refine post'_ite (fun _ => post'_err) (fun _ => ?_)
   try simp only []
   have hao1 := align8G_ge fileOffset (by omega)
   have hao2 := align8G_le fileOffset (by omega)
@@ -421,6 +421,7 @@ theorem relayoutFvG_alloc (i : FvInfo) (buf : Bytes) (files : List File) (st : S
     Post' (relayoutFvG i buf files st) m (fun _ m' =>
       m'.alloc ≤ m.alloc + placeCost (files.map (fun f => (f.info.attrs, f.buf))) + 2 * max i.length (firstBlockSize i)) := by
   unfold relayoutFvG
+  refine post'_ite (fun _ => post'_err) (fun _ => ?_)
   refine post'_ite (fun _ => post'_err) (fun _ => ?_)
   refine post'_ite (fun _ => post'_err) (fun _ => ?_)
   refine post'_bind' (R := fun hdr m' => m' = m ∧ hdr.length = i.dataOffset ∧ hdr.length < 2 ^ 63) ?_ ?_
